@@ -298,3 +298,22 @@ Proof.
   rewrite nth_error_app2 by lia. replace (_ + i - _) with i by lia.
   rewrite nth_error_app1; [exact Hi|]. apply nth_error_Some. congruence.
 Qed.
+
+Theorem blocks_prefix ls :
+  exists trail, ls = flatten_blocks (blocks_of_lines ls) ++ trail /\ Forall (fun l => is_blank l = true) trail.
+Proof. exact (blocks_fuel_prefix (length ls) 0 ls (le_n _)). Qed.
+
+Theorem block_lines_located_full ls pre b post i l :
+  blocks_of_lines ls = pre ++ b :: post ->
+  b_preceding b = length (flatten_blocks pre) /\
+  (nth_error (b_lines b) i = Some l -> nth_error ls (overall_line_index b i) = Some l).
+Proof.
+  intros H. split;
+    [exact (block_preceding_is_prefix_length ls pre b post H)|exact (block_lines_located ls pre b post i l H)].
+Qed.
+
+(* a text for the non-vacuity examples: " \r\n2020-01-01\r\na\rb\n\t\n\n2020-01-02\n    1h \xff"
+   (CRLF and LF mixed, a lone CR inside a line, blank runs, invalid UTF-8, no final newline) *)
+Definition example_text : bytes :=
+  ([32;13;10] ++ b!"2020-01-01" ++ [13;10] ++ b!"a" ++ [13] ++ b!"b" ++ [10] ++ [9;10;10]
+   ++ b!"2020-01-02" ++ [10] ++ b!"    1h " ++ [255])%N.
